@@ -93,8 +93,9 @@ def _nonint_shape(A):
 def collect(rng, thorough, per_class, hist=None, known_ids=(), on_view=None, instances=None, on_program=None):
     """Enumerate operators and views, trace and translate.
     -> (records, programs) ; programs: key -> dict(prog, field, tag, ok, pid, users).
-    `on_view(rec, A, fn, shp, dt)` is called for every view whose map could be obtained (the numerical probes run
-    there, while the operator is alive: operators are not retained, compiled executables are dropped regularly)."""
+    `on_view(rec, A, fn, shp, dt, phase)` is called for every view whose map could be obtained, before it is traced
+    (`phase="before"`) and after it was translated (`"after"`): the numerical probes run there, while the operator is
+    alive (operators are not retained, compiled executables are dropped regularly)."""
     import gc
     import warnings
 
@@ -125,7 +126,10 @@ def collect(rng, thorough, per_class, hist=None, known_ids=(), on_view=None, ins
         if nops % 100 == 0:
             jax.clear_caches()
             gc.collect()
-        for view, fn, shp, dt in ops.views(A, choose_views(rng, thorough)):
+        want = choose_views(rng, thorough)
+        if cls in ops.VIEWS_ONLY:
+            want = [v for v in want if v in ops.VIEWS_ONLY[cls]]
+        for view, fn, shp, dt in ops.views(A, want):
             rec = {"cls": cls, "config": cfg, "view": view, "field": fld}
             records.append(rec)
             if isinstance(fn, Exception):
@@ -133,6 +137,10 @@ def collect(rng, thorough, per_class, hist=None, known_ids=(), on_view=None, ins
                 count(f"view-error:{cls}.{view}")
                 continue
             rec["in_dtype"] = np.dtype(dt).name
+            if on_view is not None:
+                # the numerical probe comes first: the operator is used as a caller would use it before it is traced
+                # (a map that depends on what it was applied to earlier then shows up in the probe and in the trace)
+                on_view(rec, A, fn, shp, dt, "before")
             try:
                 closed, how = trace_view(A, view, fn, shp, dt)
             except Exception as e:  # noqa: BLE001
@@ -155,7 +163,7 @@ def collect(rng, thorough, per_class, hist=None, known_ids=(), on_view=None, ins
                     rec.update(status="operator-raises", detail=f"{type(e).__name__}: {str(e)[:300]}")
                     count(f"operator-raises:{cls}.{view}")
                 if eager_ok and on_view is not None:
-                    on_view(rec, A, fn, shp, dt)
+                    on_view(rec, A, fn, shp, dt, "after")
                 continue
             rec["traced"] = how
             if how != "public":
@@ -167,7 +175,7 @@ def collect(rng, thorough, per_class, hist=None, known_ids=(), on_view=None, ins
                 rec.update(status="not-translatable", prim=e.prim, detail=str(e))
                 count(f"not-translatable:{e.prim}")
                 if on_view is not None:
-                    on_view(rec, A, fn, shp, dt)
+                    on_view(rec, A, fn, shp, dt, "after")
                 continue
             if rec_insts:
                 # primitive instances of this program (deduplicated over the whole run) for the table validation stream
@@ -195,7 +203,7 @@ def collect(rng, thorough, per_class, hist=None, known_ids=(), on_view=None, ins
                 for pn, k in prog.prims.items():
                     count(f"prim:{pn}", )
             if on_view is not None:
-                on_view(rec, A, fn, shp, dt)
+                on_view(rec, A, fn, shp, dt, "after")
             if on_program is not None:
                 # fidelity of the translation: run the emitted IR with the real primitives against the operator itself
                 on_program(rec, prog, fn, shp, dt)
